@@ -23,8 +23,10 @@ META = {
     "behavioural correspondence (exhaustive N<=12 x n<=14, all compositions of N<=7 plus zero-length chunks, all "
     "indices / crops / tile pairs, every subset of blocks of layouts up to 3x3, sizes up to 2^120, int32-edge chunk sums) and "
     "model-independent numpy oracles, including every index spelling (tuple, Index2d via iyx_/ixy_, XY, numpy ints, negative) "
-    "at every indexing entry point on non-square tilings, and held results re-checked after later calls (aliasing, "
-    "staleness, input mutation).",
+    "at every indexing entry point on non-square tilings, held results re-checked after later calls (aliasing, "
+    "staleness, input mutation), every ordered pair of numpy numeric dtypes across blocks (np.result_type value oracle), "
+    "blocks behind a lazily loading Mapping with a transient fault at every access, and two threads extracting from one "
+    "assembler at every forced interleaving point.",
     "note": "Trusted: Lean kernel + {propext, Classical.choice, Quot.sound}; Spec/NpArray (numpy searchsorted, "
     "int indexing, tuple slicing, copyto of equal-length slices) validated against numpy each run; numpy "
     "casting / dtype promotion not modelled; int32 offsets: theorems assume sum(chunks) < 2^31 (wrap is modelled "
